@@ -19,6 +19,17 @@ func main() {
 		Formats: []conslog.Format{conslog.FTxn, conslog.FTxn, conslog.FCtrl},
 		// corpus: two aborted transactions in flight, abort then commit by one id, back-to-back aborts, three producers,
 		// a lone aborted transaction between plain batches, an abort marker without data
-		Corpus:    []string{"T1 T2 A1 A2 T1 C1 N", "T1 A1 T1 A1 T1 C1", "T1 T2 T3 A2 C1 A3 N T2 C2", "N T1 N A1 N", "A1 T1 N C1 T2 A2 T2 A2"},
-		CorpusPer: 30})
+		Corpus: []conslog.CorpusItem{
+			{Spec: "T1 T2 A1 A2 T1 C1 N"}, {Spec: "T1 A1 T1 A1 T1 C1"}, {Spec: "T1 T2 T3 A2 C1 A3 N T2 C2"}, {Spec: "N T1 N A1 N"},
+			{Spec: "A1 T1 N C1 T2 A2 T2 A2"},
+			// three to five aborted transactions in flight at once, the broker's index in every permutation
+			{Spec: "T1 T2 T3 N A1 A2 A3 N", Perms: true}, {Spec: "T1 T2 T3 T2 T1 A3 A1 T3 A2 C3", Perms: true},
+			{Spec: "T1 T2 T3 T4 A2 A4 A1 A3", Perms: true}, {Spec: "T1 T2 T3 T4 T5 N A5 A4 A3 A2 A1", Perms: true},
+			// the head of the log deleted in the middle of an aborted (and of a committed) transaction: non-zero
+			// LogStartOffset, the index keeps the original first offsets
+			{Spec: "T1 N T1 A1 N T1 C1", Cut: 1}, {Spec: "T1 T2 T1 T2 N A1 C2 N", Cut: 2}, {Spec: "T1 T2 T3 T1 T2 T3 A3 A1 A2 N", Cut: 3, Perms: true},
+			{Spec: "N T1 T1 T1 A1 N", Cut: 3},
+		},
+		NRandomIndex: 60,
+		CorpusPer:    30})
 }
